@@ -3,6 +3,8 @@
 //! The key=value arguments select a single case for replay (they are copied from the `case` object of a replay file
 //! by /verif/check).
 
+#![allow(unused_mut, dead_code, unused_variables)]
+
 mod util;
 mod report;
 mod graphmon;
